@@ -197,13 +197,32 @@ def corpus():
         P.append((f"{nm}_newobj_ex_kw", [op("PROTO", 4)] + g("m", "C") + [one, op("TUPLE1"), op("EMPTY_DICT"), u("k"), one, op("SETITEM"), op("NEWOBJ_EX"), op("STOP")]))
         P.append((f"{nm}_obj", [op("MARK")] + g("builtins", "exec") + [u("x=1"), op("OBJ"), op("STOP")]))
         P.append((f"{nm}_obj_popped", [op("MARK")] + g("builtins", "exec") + [u("x=1"), op("OBJ"), op("POP"), op("NONE"), op("STOP")]))
+        P.append((f"{nm}_obj_noargs", [op("MARK")] + g("os", "getcwd") + [op("OBJ"), op("STOP")]))        # a callable that is not a class: the VM calls it
+        P.append((f"{nm}_obj_noargs_popped", [op("MARK")] + g("os", "getcwd") + [op("OBJ"), op("POP"), op("NONE"), op("STOP")]))
         P.append((f"{nm}_build", g("m", "C") + [op("EMPTY_TUPLE"), op("REDUCE"), op("EMPTY_DICT"), u("a"), one, op("SETITEM"), op("BUILD"), op("STOP")]))
         P.append((f"{nm}_dup_memo", g("os", "getenv") + [op("DUP"), op("PUT", 3), op("POP"), u("HOME"), op("TUPLE1"), op("REDUCE"), op("GET", 3), op("TUPLE2"), op("STOP")]))
     P.append(("dotted_collision_a", [op("PROTO", 4)] + SG("os", "path.join") + SG("os.path", "join") + [op("TUPLE2"), op("STOP")]))
     P.append(("dotted_collision_b", [op("PROTO", 4)] + SG("pkg.sub", "run") + SG("pkg", "sub.run") + [op("TUPLE2"), op("STOP")]))
+    # imports of every rule category next to calls of every callee shape (name, attribute of a variable, UNPICKLER.persistent_load, .update):
+    # rules that look at one must not assume the shape of the other
+    for mod, name in (("os", "system"), ("subprocess", "run"), ("builtins", "eval"), ("foo", "eval"), ("torch.hub", "load"), ("numpy", "load"), ("collections", "OrderedDict")):
+        imp = G(mod, name)
+        tag = f"{mod}.{name}"
+        P.append((f"cat:{tag}:after_build", G("m", "C") + [op("EMPTY_TUPLE"), op("REDUCE"), op("EMPTY_DICT"), op("BUILD")] + imp + [op("TUPLE2"), op("STOP")]))
+        P.append((f"cat:{tag}:after_persid", [u("pid"), op("BINPERSID")] + imp + [op("TUPLE2"), op("STOP")]))
+        P.append((f"cat:{tag}:after_dict_update", G("m", "D") + [op("EMPTY_TUPLE"), op("REDUCE"), op("MARK"), u("k"), one, op("SETITEMS")] + imp + [op("TUPLE2"), op("STOP")]))
+        P.append((f"cat:{tag}:build_then_called", G("m", "C") + [op("EMPTY_TUPLE"), op("REDUCE"), op("EMPTY_DICT"), op("BUILD")] + imp + [u("x"), op("TUPLE1"), op("REDUCE"), op("TUPLE2"), op("STOP")]))
+        P.append((f"cat:{tag}:computed_callee_first", G("m", "factory") + [op("EMPTY_TUPLE"), op("REDUCE"), op("EMPTY_TUPLE"), op("REDUCE")] + imp + [op("TUPLE2"), op("STOP")]))
+    # a name under a standard-library package that is not itself in the standard library, next to a plain import of that package
+    P.append(("stdlib_pkg_unknown_sub", G("collections.verifsub", "thing") + [op("STOP")]))
+    P.append(("stdlib_pkg_then_unknown_sub", G("collections", "OrderedDict") + G("collections.verifsub", "thing") + [op("TUPLE2"), op("STOP")]))
+    P.append(("stdlib_pkg_call", G("collections", "OrderedDict") + [op("EMPTY_TUPLE"), op("REDUCE"), op("STOP")]))
+    P.append(("xml_unknown_sub", G("xml.dom.verifsub", "thing") + [op("STOP")]))
+    P.append(("xml_call", G("xml.dom.minidom", "Document") + [op("EMPTY_TUPLE"), op("REDUCE"), op("STOP")]))
     P.append(("same_import_twice", G("os", "getcwd") + G("os", "getcwd") + [op("TUPLE2"), op("STOP")]))
     P.append(("four_equal_unused_calls", (G("time", "time") + [op("EMPTY_TUPLE"), op("REDUCE"), op("POP")]) * 4 + [op("NONE"), op("STOP")]))
     P.append(("inst", [op("MARK"), u("a"), op("INST", ("os", "system")), op("STOP")]))
+    P.append(("inst_noargs", [op("MARK"), op("INST", ("os", "getcwd")), op("STOP")]))
     P.append(("inst_popped", [op("MARK"), u("a"), op("INST", ("os", "system")), op("POP"), op("NONE"), op("STOP")]))
     P.append(("binpersid", [u("pid"), op("BINPERSID"), op("STOP")]))
     P.append(("binpersid_popped", [u("pid"), op("BINPERSID"), op("POP"), op("NONE"), op("STOP")]))
